@@ -345,8 +345,15 @@ TrBegin ==
   /\ Step(<<>>)
   /\ UNCHANGED <<kind, n, l2v, hs>>
 
+(* eval with many variables (TDD): f = x_i <op> x_j under an assignment with
+   x_i = ai, x_j = aj (0 = false, 1 = unknown, 2 = true) *)
+TrEvalW ==
+  /\ Ev("mevalw")
+  /\ Step(<< O(Prop, "eval.wide", Has(Rec[l], "ai") /\ Rec[l].res = TBin(Rec[l].op, Rec[l].ai, Rec[l].aj)) >>)
+  /\ UNCHANGED <<kind, n, l2v, hs>>
+
 TrInit == kind = "tdd" /\ n = 0 /\ l2v = <<>> /\ hs = NoHandles /\ l = 1 /\ nf = 0 /\ fl = <<>>
-TrNext == TrReset \/ TrAddVars \/ TrReorder \/ TrOp \/ TrCofNone \/ TrDrop \/ TrObs \/ TrGc \/ TrCheck \/ TrBegin
+TrNext == TrReset \/ TrAddVars \/ TrReorder \/ TrOp \/ TrCofNone \/ TrDrop \/ TrObs \/ TrGc \/ TrCheck \/ TrBegin \/ TrEvalW
 TrSpec == TrInit /\ [][TrNext]_tvars
 Done == PrintT(<<"TRACE_DONE", TLCGet("stats").diameter - 1, Len(Rec)>>)
 =============================================================================
